@@ -24,4 +24,6 @@ MUTANTS=[
  ('samesize-grow-never', 'if !overLoadFactor(h.count+1, h.B) {\n\t\tbigger = 0\n\t\th.flags |= sameSizeGrow\n\t}', 'if !overLoadFactor(h.count+1, h.B) {\n\t\tbigger = 0\n\t}'),
  ('access-old-bucket-skip', 'if !evacuated(oldb) {\n\t\t\tb = oldb\n\t\t}\n\t}\n\ttop := tophash(hash)\nbucketloop:\n\tfor ; b != nil; b = b.overflow(t) {\n\t\tfor i := uintptr(0); i < bucketCnt; i++ {\n\t\t\tif b.tophash[i] != top {\n\t\t\t\tif b.tophash[i] == emptyRest {\n\t\t\t\t\tbreak bucketloop\n\t\t\t\t}\n\t\t\t\tcontinue\n\t\t\t}\n\t\t\tk := add(unsafe.Pointer(b), dataOffset+i*uintptr(t.KeySize))\n\t\t\tif t.IndirectKey() {\n\t\t\t\tk = *((*unsafe.Pointer)(k))\n\t\t\t}\n\t\t\tif t.Key.Equal(key, k) {\n\t\t\t\te := add(unsafe.Pointer(b), dataOffset+bucketCnt*uintptr(t.KeySize)+i*uintptr(t.ValueSize))\n\t\t\t\tif t.IndirectElem() {\n\t\t\t\t\te = *((*unsafe.Pointer)(e))\n\t\t\t\t}\n\t\t\t\treturn e, true', 'if false && !evacuated(oldb) {\n\t\t\tb = oldb\n\t\t}\n\t}\n\ttop := tophash(hash)\nbucketloop:\n\tfor ; b != nil; b = b.overflow(t) {\n\t\tfor i := uintptr(0); i < bucketCnt; i++ {\n\t\t\tif b.tophash[i] != top {\n\t\t\t\tif b.tophash[i] == emptyRest {\n\t\t\t\t\tbreak bucketloop\n\t\t\t\t}\n\t\t\t\tcontinue\n\t\t\t}\n\t\t\tk := add(unsafe.Pointer(b), dataOffset+i*uintptr(t.KeySize))\n\t\t\tif t.IndirectKey() {\n\t\t\t\tk = *((*unsafe.Pointer)(k))\n\t\t\t}\n\t\t\tif t.Key.Equal(key, k) {\n\t\t\t\te := add(unsafe.Pointer(b), dataOffset+bucketCnt*uintptr(t.KeySize)+i*uintptr(t.ValueSize))\n\t\t\t\tif t.IndirectElem() {\n\t\t\t\t\te = *((*unsafe.Pointer)(e))\n\t\t\t\t}\n\t\t\t\treturn e, true'),
  ('emptyrest-propagation-off', 'b.tophash[i] = emptyRest\n\t\t\t\tif i == 0 {', 'b.tophash[i] = emptyOne\n\t\t\t\tif i == 0 {'),
+ # revert of F25 (itab table: look-up and insertion as two critical sections again)
+ ('revert-newitab-one-critical-section', '\tif i := findItab(inter, typ); i != nil {\n\t\treturn i\n\t}\n', '\tif i := findItab(inter, typ); i != nil {\n\t\treturn i\n\t}\n\titabTable.Unlock()\n\titabTable.Lock()\n', 0, 'runtime/internal/runtime/z_face.go'),
 ]
